@@ -38,8 +38,8 @@ PROTO_OPTTIONS: OptionDescriptors = (
     OptionDescriptor(
         "c.struct_packing_alignment",
         0,
-        lambda v: 0 <= v <= 8,
-        "C language struct packing alignment, defaults to 0",
+        lambda v: v in (0, 1, 2, 4, 8),
+        "C language struct packing alignment (a power of 2), defaults to 0",
     ),
     OptionDescriptor(
         "c.name_prefix",
